@@ -6,7 +6,10 @@
 (2) row order: the rows of the whole training history are permuted and re-split into the same chunk sizes;
     every expectation must be unchanged (exact on dyadic data, 1e-8 for linear policies).
 (3) reward laws on histories where every arm is observed: +c shifts greedy / UCB1 expectations by c and leaves
-    Softmax unchanged; rewards * 2^k scale LinGreedy(0) expectations by 2^k exactly."""
+    Softmax unchanged; rewards * 2^k scale LinGreedy(0) expectations by 2^k exactly.
+
+As built: Extras: a deliberate warm-start tie (identical feature vectors of trained arms) in a third of the relabelling cases without neighbourhood policy.
+"""
 from mon import env  # noqa: F401
 import copy
 
